@@ -577,12 +577,7 @@ func (e *SpecEnv) ss() *Sorts { return e.reg.ss }
 
 // resolveType resolves a spec type; names of type parameters bound at a call site denote the type arguments.
 func (e *SpecEnv) resolveType(t *TypeX) (*Sort, types.Type, error) {
-	if t.Kind == "name" && t.Pkg == "" && e.typeArgs != nil {
-		if gt, ok := e.typeArgs[t.Name]; ok {
-			return e.ss().Of(gt), gt, nil
-		}
-	}
-	return e.reg.prog.ResolveTypeX(e.ss(), e.pk, t)
+	return e.reg.prog.resolveTypeXWith(e.ss(), e.pk, t, e.typeArgs)
 }
 
 func (e *SpecEnv) withBound(vs map[string]Term) *SpecEnv {
